@@ -23,10 +23,11 @@ CONSTANTS NN, NLow,          \* base nodes 1..NN, the first NLow of them sort be
           D,                 \* 1.0 on the grid
           Modes, AlphaDens, Clamps, Floors, Thresholds, TopKs, PairCaps, Maints,  \* config alphabets
           InitGraphs,        \* set of initial edge maps (e.g. loaded from a snapshot)
+          InitGates,         \* initial positions of the graph.enabled gate
           ItemIds, Scores,   \* sequences: ids (ranks) and scores an item may carry
           MaxItems,
           Dts,               \* tick lengths in half-lives (factor 2^-n)
-          Ops,               \* subset of {"observe","tick","merge","split","promote","gate"}
+          Ops,               \* subset of {"observe","tick","merge","split","promote","gate","turn"}
           MaxDepth,
           Tolerate,          \* causes of open, listed findings (normally {})
           CheckPerms         \* evaluate ObserveOrderInsensitive inside TLC (costly)
@@ -168,6 +169,26 @@ PromoteF(gr, c, on) ==
          IN [g |-> ApplyPromos(gr, ps), exact |-> PromoInAlphabet(gr.edges, c.mt),
              obs |-> [op |-> "promote", gate |-> TRUE, promos |-> ps]]
 
+\* one engine turn as the orchestrator sequences it: observe the retrieval, tick one turn (the
+\* half-life is one turn: factor 1/2), then the maintenance passes that are switched on; promotions
+\* derive from the merge candidates and therefore need the merge pass; gate closed: nothing at all
+TurnF(gr, c, on, items, fm, fs, fp) ==
+    IF ~on THEN Gated(gr, [op |-> "turn", gate |-> FALSE, items |-> items, flags |-> <<fm, fs, fp>>])
+    ELSE LET r1 == ObserveF(gr, c, TRUE, items)
+             r2 == TickF(r1.g, c, TRUE, 1)
+             cs == MergeCands(r2.g.edges, c.mt)
+             g3 == IF fm THEN [r2.g EXCEPT !.merges = r2.g.merges \o Take(cs, c.mt.mcap)] ELSE r2.g
+             ss == SplitCands(g3.edges, c.mt)
+             g4 == IF fs THEN [g3 EXCEPT !.splits = g3.splits \o Take(ss, c.mt.scap)] ELSE g3
+             ps == IF fp /\ fm THEN Take(PromoSeq(g4.edges, c.mt), c.mt.pcap) ELSE <<>>
+         IN [g |-> ApplyPromos(g4, ps),
+             exact |-> r1.exact /\ r2.exact /\ ((fp /\ fm) => PromoInAlphabet(g4.edges, c.mt)) /\ ~MergeAmbiguous(cs),
+             obs |-> [op |-> "turn", gate |-> TRUE, items |-> items, flags |-> <<fm, fs, fp>>,
+                      kused |-> Len(r1.obs.used), pairs |-> Len(r1.obs.keys), dropped |-> Cardinality(r2.obs.dropped),
+                      mcands |-> IF fm THEN Len(cs) ELSE 0, mapplied |-> IF fm THEN Len(Take(cs, c.mt.mcap)) ELSE 0,
+                      scands |-> IF fs THEN Len(ss) ELSE 0, sapplied |-> IF fs THEN Len(Take(ss, c.mt.scap)) ELSE 0,
+                      papplied |-> Len(ps)]]
+
 -----------------------------------------------------------------------------
 (* inputs: bags of items listed as non-decreasing sequences of item numbers *)
 NS == Len(Scores)
@@ -187,25 +208,30 @@ Init == /\ cfg \in Configs
         /\ \E e \in InitGraphs :
               /\ \A k \in DOMAIN e : InClamp(e[k].w, cfg)
               /\ g = [edges |-> e, nodes |-> {}, merges |-> <<>>, splits |-> <<>>]
-        /\ gate = TRUE
+        /\ gate \in InitGates
         /\ last = [op |-> "init"]
 
 Do(r) == r.exact /\ g' = r.g /\ last' = r.obs /\ UNCHANGED <<cfg, gate>>
 
-Observe(items) == "observe" \in Ops /\ Do(ObserveF(g, cfg, gate, items))
-Tick(n)        == "tick" \in Ops /\ Do(TickF(g, cfg, gate, n))
-Merge          == "merge" \in Ops /\ Do(MergeF(g, cfg, gate))
-Split          == "split" \in Ops /\ Do(SplitF(g, cfg, gate))
-Promote        == "promote" \in Ops /\ Do(PromoteF(g, cfg, gate))
-Gate           == "gate" \in Ops /\ gate' = ~gate /\ last' = [op |-> "gate"] /\ UNCHANGED <<g, cfg>>
+Observe(items) == Do(ObserveF(g, cfg, gate, items))
+Tick(n)        == Do(TickF(g, cfg, gate, n))
+Merge          == Do(MergeF(g, cfg, gate))
+Split          == Do(SplitF(g, cfg, gate))
+Promote        == Do(PromoteF(g, cfg, gate))
+Turn(items, fm, fs, fp) == Do(TurnF(g, cfg, gate, items, fm, fs, fp))
+Gate           == gate' = ~gate /\ last' = [op |-> "gate"] /\ UNCHANGED <<g, cfg>>
 
-Next == \/ \E b \in Bags : Observe(ItemsOf(b))
-        \/ \E n \in Dts : Tick(n)
-        \/ Merge \/ Split \/ Promote \/ Gate
+Next == \/ ("observe" \in Ops /\ \E b \in Bags : Observe(ItemsOf(b)))
+        \/ ("tick" \in Ops /\ \E n \in Dts : Tick(n))
+        \/ ("merge" \in Ops /\ Merge)
+        \/ ("split" \in Ops /\ Split)
+        \/ ("promote" \in Ops /\ Promote)
+        \/ ("gate" \in Ops /\ Gate)
+        \/ ("turn" \in Ops /\ \E b \in Bags, fm, fs, fp \in BOOLEAN : Turn(ItemsOf(b), fm, fs, fp))
 Spec == Init /\ [][Next]_vars
 
-\* histories of at most MaxDepth operations: an ACTION constraint on the level of the *pre*-state, so
-\* that every generated transition is emitted and every reached state is checked
+\* histories of at most MaxDepth operations: the bound is on the level of the *pre*-state, so that
+\* every generated transition is emitted and every reached state (incl. the last level) is checked
 DepthA == TLCGet("level") <= MaxDepth
 SpecD == Init /\ [][DepthA /\ Next]_vars
 
